@@ -268,8 +268,18 @@ def body_conversions(case):
     can0 = canonical(start_rep, start_a)
     detail = f"model={spec} start=({start_rep}, {start_a}) sequence={case['seq']}"
     tol = 1e-7 * scale + 1e-10
+    # re-declaring the triplet does not change the process: the exponent of the same object stays what it was
+    us = [0.7, -2.3]
+    expo = (lambda u: model.log_characteristic_function(t=1.0, x=u)) if spec["exp"] else model.levy_exponent
+    psi0 = [complex(expo(u)) for u in us] if case["a0"] is None else None
     for rep in case["seq"]:
         trip.set_representation(LevyRepresentation[rep])
+        if psi0 is not None:
+            psi = [complex(expo(u)) for u in us]
+            if any(abs(x - y) > 1e-9 * (1.0 + abs(y)) for x, y in zip(psi, psi0)):
+                out.append(Violation(f"C10/conversion/{br}/exponent-changes-with-the-declared-representation",
+                                     f"exponent / log-characteristic function at {us}: {psi0} as constructed, {psi} after the sequence up to {rep}; {detail}"))
+                return out
         ref = from_canonical(rep, can0)
         if trip.representation.name != rep or abs(float(trip.a) - ref) > tol:
             out.append(Violation(f"C10/conversion/{br}/to-{rep}",
